@@ -207,8 +207,9 @@ theorem evalMon_leftAsset {env : VEnv} {e : Expr} {a s : Asset} {n : Int} (h : e
     simp [leftAsset, evalMon, hk] at hl
     exact hl.symm
 
-/-- the statement fragment of `compile_correct_partial` -/
-def Stmt.frag : Stmt → Bool
+/-- the statement fragment with the typing facts spelled out (what the frame lemmas use; implied by `Stmt.frag`
+for every statement that compiles, `Stmt.frag0_of_frag`) -/
+def Stmt.frag0 : Stmt → Bool
   | .send (.mon e) (.src s) d => e.noPortion && s.frag && d.frag
   | .send (.all ae) (.src s) d => ae.noPortion && s.frag && d.frag
   | .send (.mon e) (.allot items) d =>
@@ -221,6 +222,93 @@ def Stmt.frag : Stmt → Bool
   | .setAccountMeta acc _ v => v.noPortion && acc.noPortion
   | .print e => e.noPortion
   | .fail => true
+
+/-- the statement fragment: EVERY statement of the language, with these side conditions — in-order source lists and
+allotments shorter than 2^64 (their length travels through `Uint64()`), no portion literal with a zero denominator in
+an allotment (the parser produces none), and no portion LITERAL as the value of `print` / `set_tx_meta` /
+`set_account_meta` (a de-duplicated portion constant is the same rational, possibly written differently) -/
+def Stmt.frag : Stmt → Bool
+  | .send _ (.src s) d => s.frag && d.frag
+  | .send _ (.allot items) d =>
+    items.all (fun it => it.2.frag) && decide (items.length < 18446744073709551616) && (items.map (·.1)).all specPos && d.frag
+  | .setTxMeta _ v => v.noPortion
+  | .setAccountMeta _ _ v => v.noPortion
+  | .print e => e.noPortion
+  | _ => true
+
+/-- a statement that compiles is well typed, so no portion literal sits where an account, an asset, a number or a
+monetary is required -/
+theorem Stmt.frag0_of_frag {st st' : CState} {s : Stmt} {c : Code} (hv : visitStmt st s = .ok (c, st')) (hf : s.frag = true) :
+    s.frag0 = true := by
+  cases s with
+  | fail => rfl
+  | print e => exact hf
+  | setTxMeta key v => exact hf
+  | setAccountMeta acc key v =>
+    simp only [visitStmt] at hv
+    split at hv
+    · cases hv
+    · split at hv
+      · cases hv
+      · split at hv
+        · cases hv
+        · rename_i aA c2 st2 h2
+          simp only [Stmt.frag] at hf
+          simp only [Stmt.frag0, hf, visitTyped_noPortion h2 (by decide), Bool.and_self]
+  | saveMon e acc =>
+    simp only [visitStmt] at hv
+    split at hv
+    · cases hv
+    · rename_i mA c1 st1 hm
+      split at hv
+      · cases hv
+      · rename_i aA c2 st2 h2
+        simp only [Stmt.frag0, visitTyped_noPortion hm (by decide), visitTyped_noPortion h2 (by decide), Bool.and_self]
+  | saveAll ae acc =>
+    simp only [visitStmt] at hv
+    split at hv
+    · cases hv
+    · rename_i mA c1 st1 hm
+      split at hv
+      · cases hv
+      · rename_i aA c2 st2 h2
+        simp only [Stmt.frag0, visitTyped_noPortion hm (by decide), visitTyped_noPortion h2 (by decide), Bool.and_self]
+  | send amt src d =>
+    simp only [visitStmt] at hv
+    split at hv
+    · cases hv
+    · rename_i c1 st1 hsrc
+      cases amt with
+      | mon e =>
+        cases src with
+        | src sc =>
+          simp only [visitSendSource] at hsrc
+          split at hsrc
+          · cases hsrc
+          · rename_i mA c0 stA hm
+            simp only [Stmt.frag] at hf
+            simp only [Stmt.frag0, visitTyped_noPortion hm (by decide), Bool.true_and, hf]
+        | allot items =>
+          simp only [visitSendSource] at hsrc
+          split at hsrc
+          · cases hsrc
+          · rename_i mA c0 stA hm
+            simp only [Stmt.frag] at hf
+            simp only [Stmt.frag0, visitTyped_noPortion hm (by decide), Bool.true_and, hf]
+      | all ae =>
+        cases src with
+        | src sc =>
+          simp only [visitSendSource] at hsrc
+          split at hsrc
+          · cases hsrc
+          · rename_i aA c0 stA hm
+            simp only [Stmt.frag] at hf
+            simp only [Stmt.frag0, visitTyped_noPortion hm (by decide), Bool.true_and, hf]
+        | allot items =>
+          simp only [visitSendSource] at hsrc
+          split at hsrc
+          · cases hsrc
+          · cases hsrc
 
 /-- the machine mirrors `Spec`'s running state (between two statements) -/
 structure Rel (A : List Acct) (E : List (Acct × Asset)) (m : Machine) (F : Full) : Prop where
@@ -422,6 +510,7 @@ theorem stmt_ok {R : List Resource} {V : List BVal} {env : VEnv} (cx : Ctx R V e
     match evalStmt env s F with
     | .error er => exec V c m = .error er
     | .ok F' => ∃ m', exec V c m = .ok m' ∧ Rel A E m' F' := by
+  have hf := Stmt.frag0_of_frag hv hf
   obtain ⟨stk, ⟨accts, keys, bal⟩, ps, tm, am, pr⟩ := m
   obtain ⟨h1, h2, h3, h4, h5, h6, h7, hok⟩ := hrel
   simp only at h1 h2 h3 h4 h5 h6 h7
@@ -432,7 +521,7 @@ theorem stmt_ok {R : List Resource} {V : List BVal} {env : VEnv} (cx : Ctx R V e
     obtain ⟨rfl, _⟩ := hv
     simp [evalStmt, exec, step]
   | print e =>
-    simp only [Stmt.frag] at hf
+    simp only [Stmt.frag0] at hf
     simp only [visitStmt] at hv
     split at hv
     · cases hv
@@ -448,7 +537,7 @@ theorem stmt_ok {R : List Resource} {V : List BVal} {env : VEnv} (cx : Ctx R V e
         refine ⟨_, by simp only [exec_append, h.2, exec, step, popValue, Machine.push]; rfl, ?_⟩
         exact ⟨rfl, rfl, rfl, rfl, rfl, rfl, by simp, hok⟩
   | setTxMeta key v =>
-    simp only [Stmt.frag] at hf
+    simp only [Stmt.frag0] at hf
     simp only [visitStmt] at hv
     split at hv
     · cases hv
@@ -471,7 +560,7 @@ theorem stmt_ok {R : List Resource} {V : List BVal} {env : VEnv} (cx : Ctx R V e
           refine ⟨_, by simp only [exec_append, h.2, exec, hVk, step, popStr, popValue, Machine.push]; rfl, ?_⟩
           exact ⟨rfl, rfl, rfl, rfl, by simp only; rw [setKey_map], rfl, rfl, hok⟩
   | setAccountMeta acc key v =>
-    simp only [Stmt.frag, Bool.and_eq_true] at hf
+    simp only [Stmt.frag0, Bool.and_eq_true] at hf
     simp only [visitStmt] at hv
     split at hv
     · cases hv
@@ -502,7 +591,7 @@ theorem stmt_ok {R : List Resource} {V : List BVal} {env : VEnv} (cx : Ctx R V e
             refine ⟨rfl, rfl, rfl, rfl, rfl, ?_, rfl, hok⟩
             simp [List.filter_map, Function.comp_def]
   | saveMon e acc =>
-    simp only [Stmt.frag, Bool.and_eq_true] at hf
+    simp only [Stmt.frag0, Bool.and_eq_true] at hf
     simp only [visitStmt] at hv
     split at hv
     · cases hv
@@ -541,7 +630,7 @@ theorem stmt_ok {R : List Resource} {V : List BVal} {env : VEnv} (cx : Ctx R V e
                 Balances.hasAcct, hent.1, Bool.not_true, Bool.false_eq_true, hg, Option.getD_some]; rfl, ?_⟩
               exact ⟨rfl, rfl, rfl, rfl, rfl, rfl, rfl, hok.upd hent.1 _ _⟩
   | saveAll ae acc =>
-    simp only [Stmt.frag, Bool.and_eq_true] at hf
+    simp only [Stmt.frag0, Bool.and_eq_true] at hf
     simp only [visitStmt] at hv
     split at hv
     · cases hv
@@ -588,9 +677,9 @@ theorem stmt_ok {R : List Resource} {V : List BVal} {env : VEnv} (cx : Ctx R V e
         · cases src with
           | allot items =>
             cases amt with
-            | all ae => simp [Stmt.frag] at hf
+            | all ae => simp [Stmt.frag0] at hf
             | mon e =>
-              simp only [Stmt.frag, Bool.and_eq_true, decide_eq_true_eq, List.all_eq_true] at hf
+              simp only [Stmt.frag0, Bool.and_eq_true, decide_eq_true_eq, List.all_eq_true] at hf
               obtain ⟨⟨⟨⟨hfe, hfs⟩, hflen⟩, hfq⟩, hfd⟩ := hf
               simp only [visitSendSource] at hsrc
               split at hsrc
@@ -734,7 +823,7 @@ theorem stmt_ok {R : List Resource} {V : List BVal} {env : VEnv} (cx : Ctx R V e
           | src sc =>
             cases amt with
             | mon e =>
-              simp only [Stmt.frag, Bool.and_eq_true] at hf
+              simp only [Stmt.frag0, Bool.and_eq_true] at hf
               obtain ⟨⟨hfe, hfs⟩, hfd⟩ := hf
               simp only [visitSendSource] at hsrc
               split at hsrc
@@ -828,7 +917,7 @@ theorem stmt_ok {R : List Resource} {V : List BVal} {env : VEnv} (cx : Ctx R V e
                               refine ⟨_, by first | (simp only [exec_append, hex1', hX.2, push_upd, ofVal_mon, hex2, hex3]; done) | (simp only [exec_append, hex1', hX.2, push_upd, ofVal_mon, hex2, hex3]; rfl), ?_⟩
                               exact ⟨rfl, rfl, rfl, rfl, rfl, rfl, rfl, hok3⟩
             | all ae =>
-              simp only [Stmt.frag, Bool.and_eq_true] at hf
+              simp only [Stmt.frag0, Bool.and_eq_true] at hf
               obtain ⟨⟨hfe, hfs⟩, hfd⟩ := hf
               simp only [visitSendSource] at hsrc
               split at hsrc
